@@ -48,13 +48,35 @@ pub fn derived_filters(e: &MEvent) -> Vec<(String, MFilter)> {
     v
 }
 
+/// Filter shapes that e's fields satisfy and that also name values of a second event `p`: several authors,
+/// kinds or tag values in one filter make the store scan several index ranges for one answer. Without a limit and with one (the check sets
+/// it to the exact number of matching retrievable events).
+pub fn derived_filters_with(e: &MEvent, p: &MEvent) -> Vec<(String, MFilter)> {
+    let mut v = Vec::new();
+    for limit in [None, Some(1000u32)] {
+        let l = if limit.is_some() { ":limit" } else { "" };
+        v.push((format!("2authors+kind{l}"), MFilter { authors: vec![p.pubkey.clone(), e.pubkey.clone()], kinds: vec![e.kind], limit, ..Default::default() }));
+        v.push((format!("2authors+2kinds{l}"), MFilter { authors: vec![e.pubkey.clone(), p.pubkey.clone()], kinds: vec![p.kind, e.kind], limit, ..Default::default() }));
+        let et = e.tags.iter().find(|t| t.len() >= 2 && t[0].len() == 1);
+        if let Some(et) = et {
+            // the partner's value under the same letter if it has one, else an unused value
+            let pv = p.tags.iter().find(|t| t.len() >= 2 && t[0] == et[0]).map(|t| t[1].clone()).unwrap_or_else(|| "no-such-value".to_string());
+            let vals = if pv == et[1] { vec![et[1].clone()] } else { vec![pv, et[1].clone()] };
+            v.push((format!("tag:2values{l}"), MFilter { tags: vec![(et[0].clone(), vals.clone())], limit, ..Default::default() }));
+            v.push((format!("author+tag:2values{l}"), MFilter { authors: vec![e.pubkey.clone()], tags: vec![(et[0].clone(), vals.clone())], limit, ..Default::default() }));
+            v.push((format!("2kinds+tag:2values{l}"), MFilter { kinds: vec![p.kind, e.kind], tags: vec![(et[0].clone(), vals)], limit, ..Default::default() }));
+        }
+    }
+    v
+}
+
 impl Prop for C17 {
     type Case = Case;
     fn id(&self) -> &'static str {
         "C17"
     }
     fn rule(&self) -> String {
-        "Cases: histories of 0..25 (thorough 0..80) operations (stores, new versions at replaceable addresses, own/foreign deletion requests, removes, vanishes) over events with repeated, > 182-byte, NUL-extended, empty and multi-string tags and the two extreme ids. Oracle after every step, for every event ever submitted: if it can be fetched by id, each filter its own fields satisfy (its id; author; author+kind; created_at window; kind+window; each single-letter tag's first value alone, with its author, with its kind) returns it; if not, none of them returns it; has_event agrees; the id, time, author and author-kind index entry counts all equal the number of retrievable events. At the end every retrievable event is removed and all nine index entry counts must be zero. Non-trivial: a step that makes an event with >= 2 indexed tags unretrievable while another retrievable event shares one of its tag values.".into()
+        "Cases: histories of 0..25 (thorough 0..80) operations (stores, new versions at replaceable addresses, own/foreign deletion requests, removes, vanishes) over events with repeated, > 182-byte, NUL-extended, empty and multi-string tags and the two extreme ids. Oracle after every step, for every event ever submitted: if it can be fetched by id, each filter its own fields satisfy (its id; author; author+kind; created_at window; kind+window; each single-letter tag's first value alone, with its author, with its kind; and the two-valued variants that also name the author / kind / tag value of the next submitted event, without a limit and with a limit equal to the number of retrievable events that match) returns it; if not, none of them returns it; has_event agrees; the id, time, author and author-kind index entry counts all equal the number of retrievable events. At the end every retrievable event is removed and all nine index entry counts must be zero. Non-trivial: a step that makes an event with >= 2 indexed tags unretrievable while another retrievable event shares one of its tag values.".into()
     }
     fn assumptions(&self) -> Vec<String> {
         vec!["'Retrievable' is what get_event_by_id reports; the other access paths are compared with it.".into()]
@@ -166,7 +188,18 @@ impl Prop for C17 {
                         return out;
                     }
                 }
-                for (shape, f) in derived_filters(e) {
+                // the partner for the two-valued shapes: the next event in submission order (cyclically)
+                let partner = &w.events[(i + 1) % w.events.len()];
+                let mut shapes = derived_filters(e);
+                if w.events.len() <= 40 {
+                    shapes.extend(derived_filters_with(e, partner));
+                }
+                for (shape, mut f) in shapes {
+                    if f.limit.is_some() {
+                        // exactly as many as match (by the model): every match still has to be there
+                        let m = r.iter().filter(|j| nip01_match(&MFilter { limit: None, ..f.clone() }, &w.events[**j])).count();
+                        f.limit = Some(m.max(1) as u32);
+                    }
                     match w.query(&f) {
                         Ok(ids) => {
                             let found = ids.iter().any(|x| *x == e.id);
